@@ -221,6 +221,12 @@ Proof.
 Qed.
 Print Assumptions C11_uq_interp_endpoints_and_range.
 
+(* the constructor applied to the blend: whether or not the blend passes the 10-eps unit test it is normalised by base.unit
+   (fix d0fc1b2; the failing path used to end in IndexError), so the only error left is base.unit's ValueError for a (near) zero vector *)
+Theorem C11_uq_construct_normalises : forall q, uq_construct Rops (kU Rops) (kV Rops) q = qunit_m Rops (kU Rops) q.
+Proof. intros q. unfold uq_construct. destruct (ltb Rops _ _); reflexivity. Qed.
+Print Assumptions C11_uq_construct_normalises.
+
 (* the weights cos(s th) - d sin(s th)/sin(th), sin(s th)/sin(th) are those of slerp: in the general branch the two
    interpolators return the same quaternion *)
 Theorem C11_uq_interp_agrees_with_slerp : forall q0 q1 s sh, unitq q0 -> unitq q1 -> 0 < s < 1 -> not_antipodal sh q0 q1 ->
